@@ -633,6 +633,11 @@ func (n *Node) fastForward() error {
 	resp := n.getBestFastForwardResponse()
 	if resp == nil {
 		n.logger.Error("getBestFastForwardResponse returned nil => Babbling")
+		// a bootstrapped node already has events of its own: restore head and
+		// seq as the Babbling branch of setBabblingOrCatchingUpState does
+		if err := n.core.setHeadAndSeq(); err != nil {
+			n.core.setHeadAndSeq()
+		}
 		n.transition(_state.Babbling)
 		return fmt.Errorf("getBestFastForwardResponse returned nil")
 	}
